@@ -247,9 +247,10 @@ class Bag:
     contracts, fresh sets) that are *determined or constrained* by ``defs`` (callee postconditions and
     definitional facts): they are not part of the identity of an occurrence, and they are universally
     quantified (a callee's nondeterminism is demonic) wherever the bag is reasoned about."""
-    __slots__ = ("binders", "cond", "elem", "tag", "defs", "aux")
+    __slots__ = ("binders", "cond", "elem", "tag", "defs", "aux", "order", "last_order")
 
-    def __init__(self, binders, cond, elem, tag="", defs=None, aux=None):
+    def __init__(self, binders, cond, elem, tag="", defs=None, aux=None, order=None):
+        self.order = order      # Int term over the binders: occurrences come in increasing order of it (or None)
         self.binders = list(binders)
         self.cond = cond
         self.elem = elem
@@ -262,6 +263,7 @@ class Bag:
         news = [fresh(prefix, b.sort()) for b in self.binders]
         newaux = [fresh(prefix + "x", b.sort()) for b in self.aux]
         sub = list(zip(self.binders, news)) + list(zip(self.aux, newaux))
+        self.last_order = z3.substitute(self.order, *sub) if (self.order is not None and sub) else self.order
         if not sub:
             return news, self.cond, self.elem, self.defs
         return news, z3.substitute(self.cond, *sub), subst_sv(self.elem, sub), z3.substitute(self.defs, *sub)
